@@ -387,3 +387,50 @@ def generic_replay(ctx, mod, path):
         print(f"VIOLATION property={ctx.prop} replay={path}")
         return 1
     return 0
+
+
+def run_lines_guarded(exe, cases, per_case_timeout=10.0):
+    """Like run_lines, but one case at a time with a deadline: a case on which the executable hangs or dies
+    is reported as {"hang": True} / {"died": rc} and the executable is restarted."""
+    import select
+
+    res = {}
+    proc = None
+
+    def start():
+        return subprocess.Popen([exe], stdin=subprocess.PIPE, stdout=subprocess.PIPE, stderr=subprocess.DEVNULL,
+                                text=True, bufsize=1, env=env_offline())
+
+    for c in cases:
+        if proc is None or proc.poll() is not None:
+            proc = start()
+        try:
+            proc.stdin.write(json.dumps(c, separators=(",", ":")) + "\n")
+            proc.stdin.flush()
+        except BrokenPipeError:
+            res[c["id"]] = {"died": proc.poll()}
+            proc = None
+            continue
+        ready, _, _ = select.select([proc.stdout], [], [], per_case_timeout)
+        if not ready:
+            proc.kill()
+            proc.wait()
+            proc = None
+            res[c["id"]] = {"hang": True}
+            continue
+        line = proc.stdout.readline()
+        if not line:
+            res[c["id"]] = {"died": proc.wait()}
+            proc = None
+            continue
+        try:
+            res[c["id"]] = json.loads(line)
+        except Exception:
+            res[c["id"]] = {"garbled": line[:200]}
+    if proc is not None and proc.poll() is None:
+        try:
+            proc.stdin.close()
+            proc.wait(timeout=5)
+        except Exception:
+            proc.kill()
+    return res
